@@ -83,7 +83,7 @@ def make_case(unit):
         cases.attach_insertions(g, facets, tr, hide_some=False, disjoint=True)
     measures, numvar = (), None
     if mode == "plain":
-        w = g.weights(N, g.pick(["none", "frac", "unit8"]))
+        w = g.weights(N, g.pick(["none", "frac", "unit8", "float"]))
     elif mode == "sq_weights":
         w = g.weights(N, "frac")
         measures = ("sq_weights",)
@@ -237,6 +237,17 @@ def _props(res, L, V, part, tr, sq):
             df = B + na - 2
             ep = two_sided_p(et, df)
         m = judged_row[:, None] & judged_col[None, :] & judged_col[a]
+        if V.inexact:
+            # 0/0 cells (both proportions 0 or 1) are decided by rounding in the oracle's
+            # own sums: not judged with weights that are not exactly representable
+            with np.errstate(invalid="ignore"):
+                zero = np.nan_to_num(var, nan=0.0) <= 1e-12
+                # x/0 with x != 0 is a legitimate +/-inf (or 1e8 after rounding); 0/0 is not
+                big = zero & (np.abs(P - pa) < 1e-9) & np.isfinite(t_) & (np.abs(t_) > 1)
+                if big.any():
+                    res.observations["0/0 pairwise cell reported with |t| > 1 (inexact "
+                                     "weights)"] += int(big.sum())
+                m = m & ~zero
         ok, det = cmp.same(np.where(m, t_, 0), np.where(m, et, 0), rtol=1e-8, atol=1e-10)
         res.check("t_stats", ok, "t_stats%s" % ("/sq_weights" if sq else ""), det)
         ok, det = cmp.same(np.where(m, p_, 0), np.where(m, ep, 0), rtol=1e-7, atol=1e-10)
@@ -328,6 +339,9 @@ def _legacy(res, part, V, P, B, sq):
             pa, na = P[:, [a]], B[:, [a]]
             et = (P - pa) / np.sqrt(P * (1 - P) / B + pa * (1 - pa) / na)
         m = judged_row[:, None] & judged_col[None, :] & judged_col[a]
+        if V.inexact:
+            with np.errstate(invalid="ignore", divide="ignore"):
+                m = m & ~(np.nan_to_num(P * (1 - P) / B + pa * (1 - pa) / na, nan=0.0) <= 1e-12)
         if t_.shape != et.shape:
             res.check("legacy_t_stats", False, "legacy/t_stats/shape", {"got": list(t_.shape)})
             continue
